@@ -1704,18 +1704,39 @@ where
       // yes to more than one of the class tests below, so for a rule of the
       // document the value is only at fault when it is not an instance of the
       // rule itself
-      let is_instance_of_target_rule = matches!(lookup_ident(target_ident.ident), Token::IDENT(..))
-        && rule_from_ident(self.state.cddl, target_ident).is_some()
-        && {
-          let mut probe = self.clone();
-          probe.errors.clear();
-          probe.state.ctrl = None;
-          probe.visit_identifier(target_ident)?;
-          probe.errors.is_empty()
-        };
+      let is_target_rule = matches!(lookup_ident(target_ident.ident), Token::IDENT(..))
+        && rule_from_ident(self.state.cddl, target_ident).is_some();
+      let is_instance_of_target_rule = is_target_rule && {
+        let mut probe = self.clone();
+        probe.errors.clear();
+        probe.state.ctrl = None;
+        probe.visit_identifier(target_ident)?;
+        probe.errors.is_empty()
+      };
 
       if is_instance_of_target_rule {
         // nothing to reject: the control operator is applied below
+      } else if is_target_rule
+        && matches!(
+          ctrl,
+          ControlOperator::EQ
+            | ControlOperator::NE
+            | ControlOperator::LT
+            | ControlOperator::LE
+            | ControlOperator::GT
+            | ControlOperator::GE
+            | ControlOperator::SIZE
+        )
+        && !matches!(self.cbor, Value::Array(_) | Value::Map(_))
+      {
+        // The controlled value must itself be an instance of the target type
+        // (RFC 8610 3.8): `small .ne 5` with `small = uint .le 100` does not
+        // admit 500
+        self.add_error(format!(
+          "expected type {}, got {:?}",
+          target_ident, self.cbor
+        ));
+        return Ok(());
       } else if is_ident_string_data_type(self.state.cddl, target_ident)
         && !matches!(self.cbor, Value::Text(_))
       {
